@@ -23,7 +23,9 @@ fn universe() -> Vec<String> {
     v.push("\u{7f}".to_string());
     // the ends of the code space (sets that are "everything but one code point"), and the only
     // fold-table entry with stride 4 (U+01B8/01B9, U+01BC/01BD) with its non-folding neighbours
-    for c in [0x1u32, 0x10FFFF, 0x10FFFE, 0x1B8, 0x1B9, 0x1BA, 0x1BB, 0x1BC, 0x1BD] {
+    // (and the first / last code point of every UTF-8 length: lowering to byte sets and byte
+    // sequences switches representation there)
+    for c in [0x1u32, 0x10FFFF, 0x10FFFE, 0x1B8, 0x1B9, 0x1BA, 0x1BB, 0x1BC, 0x1BD, 0x80, 0x81, 0xFF, 0x100, 0x7FF, 0x800, 0xFFFF, 0x10000] {
         v.push(char::from_u32(c).unwrap().to_string());
     }
     for s in ["xyz", "bac", "1\u{FE0F}\u{20E3}"] {
@@ -37,9 +39,9 @@ fn universe() -> Vec<String> {
     v
 }
 
-const LEGACY_ITEMS: &[&str] = &["\u{1}-\u{10FFFF}", "\u{0}-\u{10FFFE}", "ƻ-Ƽ", "ƹ-Ƽ", "a", "b", "k", "K", "-", "a-c", "A-C", "\\d", "\\w", "\\W", "\\s", "\\S", "\\D", "é", "\\u212A", "ſ", "σ", "µ", "^", "&", "\\b", "[", "\\]"];
-const U_ITEMS: &[&str] = &["\u{1}-\u{10FFFF}", "\u{0}-\u{10FFFE}", "ƻ-Ƽ", "ƹ-Ƽ", "a", "b", "k", "K", "\\-", "a-c", "A-C", "\\d", "\\w", "\\W", "\\s", "\\S", "é", "\\u212A", "ſ", "\\p{Lu}", "\\P{Lu}", "\\p{Ll}", "\\P{Ll}", "\\u{10400}", "σ", "µ", "^", "&"];
-const V_LEAVES: &[&str] = &["\u{1}-\u{10FFFF}", "\u{0}-\u{10FFFE}", "ƻ-Ƽ", "ƹ-Ƽ", "a", "b", "k", "K", "C", "\\-", "\\&", "a-c", "A-C", "\\d", "\\w", "\\W", "\\s", "é", "\\u212A", "ſ", "\\p{Lu}", "\\P{Lu}", "\\q{ab|a|}", "\\q{k}", "\\q{}", "\\q{AB}", "\\q{C}"];
+const LEGACY_ITEMS: &[&str] = &["\u{80}", "\u{7f}-\u{80}", "\u{7ff}\u{800}", "\u{1}-\u{10FFFF}", "\u{0}-\u{10FFFE}", "ƻ-Ƽ", "ƹ-Ƽ", "a", "b", "k", "K", "-", "a-c", "A-C", "\\d", "\\w", "\\W", "\\s", "\\S", "\\D", "é", "\\u212A", "ſ", "σ", "µ", "^", "&", "\\b", "[", "\\]"];
+const U_ITEMS: &[&str] = &["\u{80}", "\u{7f}-\u{80}", "\u{7ff}\u{800}", "\u{1}-\u{10FFFF}", "\u{0}-\u{10FFFE}", "ƻ-Ƽ", "ƹ-Ƽ", "a", "b", "k", "K", "\\-", "a-c", "A-C", "\\d", "\\w", "\\W", "\\s", "\\S", "é", "\\u212A", "ſ", "\\p{Lu}", "\\P{Lu}", "\\p{Ll}", "\\P{Ll}", "\\u{10400}", "σ", "µ", "^", "&"];
+const V_LEAVES: &[&str] = &["\u{80}", "\u{7f}-\u{80}", "\u{7ff}\u{800}", "\u{1}-\u{10FFFF}", "\u{0}-\u{10FFFE}", "ƻ-Ƽ", "ƹ-Ƽ", "a", "b", "k", "K", "C", "\\-", "\\&", "a-c", "A-C", "\\d", "\\w", "\\W", "\\s", "é", "\\u212A", "ſ", "\\p{Lu}", "\\P{Lu}", "\\q{ab|a|}", "\\q{k}", "\\q{}", "\\q{AB}", "\\q{C}"];
 const V_SMALL: &[&str] = &["a", "k", "K", "a-c", "\\w", "\\W", "\\p{Lu}", "\\q{ab|a}", "ſ", "\\q{}"];
 
 pub fn build(cfg: &Cfg) -> Vec<(String, Flags)> {
